@@ -12,109 +12,6 @@ from . import common
 from .common import rule_save_order
 
 
-def rule_sentinels(rep, rule="S-sentinel"):
-    """No value that can be -1 (or index-1) flows into the upper bound of a slice of the file text."""
-    idx = common.ctx()
-    mod = idx.module("klattgrid")
-    fns = list(mod.functions.values())
-    # slice sites whose upper bound comes from a list parameter
-    sinks = []  # (function, data param name, list param name)
-    for f in fns:
-        for n in ast.walk(f.node):
-            if isinstance(n, ast.Subscript) and isinstance(n.slice, ast.Slice) and isinstance(n.slice.upper, ast.Name) and isinstance(n.value, ast.Name):
-                d = tf.single_def(f, n.slice.upper.id)
-                if isinstance(d, ast.Subscript) and isinstance(d.value, ast.Name) and d.value.id in f.params and n.value.id in f.params:
-                    sinks.append((f, n.value.id, d.value.id))
-    if not sinks:
-        rep.vanished(rule, "klattgrid._getSectionHeader", "data[sectionStart:sectionEnd]", "no slice of the file text bounded by an index list was found")
-        return
-    n_sites = 0
-    for f, dparam, lparam in sinks:
-        rep.functions.add(f.qual)
-        for g in fns:
-            for call in [c for c in ast.walk(g.node) if isinstance(c, ast.Call) and norm(c.func) == f.name]:
-                di, li = f.params.index(dparam), f.params.index(lparam)
-                if len(call.args) <= max(di, li):
-                    continue
-                data_arg, list_arg = norm(call.args[di]), call.args[li]
-                lists = set()
-                if isinstance(list_arg, ast.Name):
-                    lists.add(list_arg.id)
-                    # a loop variable over a list of lists: every element list counts
-                    for lp in ast.walk(g.node):
-                        if isinstance(lp, ast.For) and isinstance(lp.target, ast.Name) and lp.target.id == list_arg.id and isinstance(lp.iter, ast.Name):
-                            outer = lp.iter.id
-                            for lp2 in ast.walk(g.node):
-                                if isinstance(lp2, ast.For) and isinstance(lp2.iter, ast.Name) and lp2.iter.id == outer and isinstance(lp2.target, ast.Name):
-                                    lists.add(lp2.target.id)
-                for ap in ast.walk(g.node):
-                    if isinstance(ap, ast.Call) and isinstance(ap.func, ast.Attribute) and ap.func.attr == "append" and isinstance(ap.func.value, ast.Name) and ap.func.value.id in lists and ap.args:
-                        n_sites += 1
-                        v = ap.args[0]
-                        t = norm(v)
-                        lossy = (isinstance(v, ast.UnaryOp) and isinstance(v.op, ast.USub)) or (isinstance(v, ast.Constant) and isinstance(v.value, int) and v.value < 0) or (isinstance(v, ast.BinOp) and isinstance(v.op, ast.Sub))
-                        good = t == "len(%s)" % data_arg or (isinstance(v, ast.Subscript) and not lossy)
-                        if lossy:
-                            rep.refuted(rule, g.short, "%s.append(%s)" % (ap.func.value.id, t), "this value becomes the upper bound of %s[start:end] in %s: as a slice end, -1 (or next-1) cuts the last character -- the last digit of the last value of the section" % (data_arg, f.name), loc=g.where(ap))
-                        elif good:
-                            rep.proved(rule, g.short, "%s.append(%s)" % (ap.func.value.id, t), "end bound is the text length or an un-offset section index: no character is lost", loc=g.where(ap))
-                        else:
-                            rep.undecided(rule, g.short, "%s.append(%s)" % (ap.func.value.id, t), "cannot classify this slice end bound")
-    rep.floor(rule, 3, "sectionIndexList.append, subList.append x2")
-
-
-def rule_exact_numbers(rep, rule="N-exact"):
-    """Every number written by the Klatt/point-object writers is repr(); every number read is float(whole field)."""
-    idx = common.ctx()
-    writers = ["KlattContainerTier.getAsText", "KlattPointTier.getAsText", "KlattSubPointTier.getAsText", "Klattgrid.save", "PointObject.save"]
-    n = 0
-    for spec in writers:
-        fn = idx.get(spec)
-        rep.functions.add(fn.qual)
-        for s in tf.percent_slots(fn):
-            if s.quoted or s.arg is None:
-                continue
-            t = norm(s.arg)
-            if s.conv == "d":
-                ok = t.startswith("len(") or re.fullmatch(r"\w+ \+ 1", t) is not None
-                rep.check(ok, rule, fn.short, "%s <- %s" % (s.template.strip()[:40], t), ok="integer count / index", bad="'%d' applied to something that is not a count", nontrivial=False, loc=fn.where(s.node))
-                continue
-            if s.conv in ("s", "r"):
-                if t.startswith("repr(") or s.spec == "%r":
-                    n += 1
-                    rep.proved(rule, fn.short, "%s <- %s" % (s.template.strip()[:40], t), "number written with repr (every digit)")
-                elif any(k in t for k in ("Timestamp", "Time", "entry[", "val")) and not t.endswith("name") and "name" not in t.lower():
-                    rep.refuted(rule, fn.short, "%s <- %s" % (s.template.strip()[:40], t), "a number is written without repr(): digits may be lost", loc=fn.where(s.node))
-            else:
-                rep.refuted(rule, fn.short, "%s <- %s" % (s.template.strip()[:40], t), "fixed-precision conversion '%s' applied to a number" % s.spec, loc=fn.where(s.node))
-    # PointObject.save: the value list
-    ps = idx.get("PointObject.save")
-    comps = [c for c in ast.walk(ps.node) if isinstance(c, ast.ListComp)]
-    ok = any(norm(c.elt) == "repr(val)" and len(c.generators) == 2 for c in comps)
-    rep.check(ok, rule, ps.short, norm(comps[0]) if comps else "point list", ok="every coordinate of every point is written with repr, in order", bad="point coordinates are not all written with repr()")
-    # readers: float(<whole stripped field>)
-    readers = ["klattgrid:_processSectionData", "klattgrid:_getSectionHeader", "klattgrid:_buildEntries"]
-    for spec in readers:
-        fn = idx.get(spec)
-        rep.functions.add(fn.qual)
-        for c in ast.walk(fn.node):
-            if isinstance(c, ast.Call) and norm(c.func) == "float" and c.args:
-                a = c.args[0]
-                whole = isinstance(a, ast.Call) and isinstance(a.func, ast.Attribute) and a.func.attr == "strip"
-                rep.check(whole, rule, fn.short, norm(c)[:70], ok="float() of the whole stripped field", bad="a number is parsed from something other than the whole stripped field", loc=fn.where(c))
-    # _processSectionData: field = text after '=' up to the newline
-    pd = idx.get("klattgrid:_processSectionData")
-    starts = [norm(s.value) for s in ast.walk(pd.node) if isinstance(s, ast.Assign) and norm(s.targets[0]) == "startI" and isinstance(s.value, ast.BinOp)]
-    ends = [norm(s.value) for s in ast.walk(pd.node) if isinstance(s, ast.Assign) and norm(s.targets[0]) == "endI"]
-    ok = all(re.fullmatch(r"sectionData\.index\('=', \w+\) \+ 1", x) for x in starts) and len(starts) == 2 and all(x == "sectionData.index('\\n', startI)" for x in ends) and len(ends) == 2
-    rep.check(ok, rule, pd.short, "field bounds", ok="each field runs from just after '=' to the next newline: no character lost", bad="field bounds changed: %s / %s" % (starts, ends))
-    gv = idx.get("data_points:_getNextValue")
-    rets = [n for n in ast.walk(gv.node) if isinstance(n, ast.Assign) and norm(n.targets[0]) == "value"]
-    ok = len(rets) == 1 and norm(rets[0].value) == "data[start + 1:end]" and any(norm(n.value) == "data.index('\\n', start)" for n in ast.walk(gv.node) if isinstance(n, ast.Assign))
-    rep.check(ok, rule, gv.short, norm(rets[0].value) if rets else "?", ok="long point-object reader takes the text after '=' up to the newline", bad="long point-object field bounds changed")
-    rep.floor(rule, 14)
-
-
 def rule_clean_numeric(rep, tier, rule="N-clean"):
     """_cleanNumericValues / toIntOrFloat, interpreted on exemplar rows, never change the number a row denotes."""
     idx = common.ctx()
